@@ -6,6 +6,7 @@ mod gates;
 mod net;
 mod props;
 mod rt;
+mod tree;
 
 fn main() {
     let args: Vec<String> = std::env::args().skip(1).collect();
@@ -22,6 +23,7 @@ fn main() {
         ("props", "replay") => props::replay(&args[2..]),
         ("props", "slots") => props::replay_slots(&args[2..]),
         ("body", "replay") => body::replay(&args[2..]),
+        ("tree", "replay") => tree::replay(&args[2..]),
         ("net", "replay") => net::replay(&args[2..]),
         ("gates", "replay") => gates::replay(&args[2..]),
         ("gates", "record") => gates::record(&args[2..]),
